@@ -19,7 +19,7 @@ def gen(rng, count, tier):
         via_setter = rng.random() < 0.4
         pool = {'n_jobs': nj, 'start_method': sms[k % len(sms)], 'keep_alive': rng.random() < 0.3}
         calls = []
-        shared = {'k': k, 'l': [1, 2]} if b else None
+        shared = rng.choice([{'k': k, 'l': [1, 2]}, [], {}, 0, '', [0]]) if b else None
         if via_setter:
             calls += [{'kind': 'setter', 'name': 'pass_on_worker_id', 'args': [a]},
                       {'kind': 'setter', 'name': 'set_shared_objects', 'args': [shared]},
